@@ -123,7 +123,7 @@ func IDs() []string {
 	return out
 }
 
-var allShapes = []string{"doc", "flat", "flatb", "kv", "nested", "nestedb", "opt4", "pair", "person", "rep3"}
+var allShapes = []string{"doc", "flat", "flatb", "kv", "nested", "nestedb", "opt4", "pair", "person", "rep3", "wide"}
 
 // c13Shapes: all shapes; flat/flatb and nested/nestedb are twins (same column names, different physical types).
 var c13Shapes = allShapes
@@ -229,7 +229,7 @@ func leavesOf(t reflect.Type) []pq.Leaf {
 				panic("leavesOf: unsupported kind " + ft.Kind().String())
 			}
 			p := append(append([]string(nil), path...), name)
-			out = append(out, pq.Leaf{Path: strings.Join(p, "."), Type: pt, MaxDef: d, MaxRep: r})
+			out = append(out, pq.Leaf{Elems: p, Path: strings.Join(p, "."), Type: pt, MaxDef: d, MaxRep: r})
 		}
 	}
 	walk(t, nil, 0, 0)
